@@ -64,6 +64,7 @@ class Ctx:
         self.in_bufs = []       # (guard, lenvar)  argument buffers handed in
         self.out_bufs = []      # (guard expr) result buffers expected to be live until post-return
         self.covers = []
+        self.fixed = False      # lists get the CONCRETE length L (nested heap data is only affordable that way)
 
     def fresh(self, p):
         self.n += 1
@@ -180,7 +181,10 @@ def alloc_list(ctx, t, guard):
     et, esz, eal = elem_info(t)
     bound = ctx.S if t.kind == "string" else ctx.L
     n, ab, ptr = ctx.fresh("n"), ctx.fresh("ab"), ctx.fresh("ptr")
-    ctx.emit("let %s: usize = kani::any(); kani::assume(%s <= %d);" % (n, n, bound))
+    if ctx.fixed and t.kind == "list":
+        ctx.emit("let %s: usize = %d;" % (n, bound))
+    else:
+        ctx.emit("let %s: usize = kani::any(); kani::assume(%s <= %d);" % (n, n, bound))
     ctx.emit("let %s: [u8; %d] = kani::any();" % (ab, bound * esz))
     # zero-length: any aligned non-null pointer (cabi_realloc returns `align` itself for a zero-size request)
     ctx.emit("let mut %s: *mut u8 = %d as *mut u8;" % (ptr, eal))
@@ -406,7 +410,10 @@ def build(ctx, t, string_is_bytes=False):
         return ["let %s = match %s { %s };" % (g, d, ", ".join(arms))], g, ("var", "(%s as u64)" % d, vals)
     if k == "list":
         n, g = ctx.fresh("gn"), ctx.fresh("g")
-        ctx.emit("let %s: usize = kani::any(); kani::assume(%s <= %d);" % (n, n, ctx.L))
+        if ctx.fixed:
+            ctx.emit("let %s: usize = %d;" % (n, ctx.L))
+        else:
+            ctx.emit("let %s: usize = kani::any(); kani::assume(%s <= %d);" % (n, n, ctx.L))
         lines = ["let mut %s = Vec::new();" % g]
         vals = []
         for i in range(ctx.L):
